@@ -5,7 +5,7 @@ from hypothesis import strategies as st
 
 from anytree import Resolver, ResolverError
 
-from .. import forest, resolver_ref as rr, shapes, strategies
+from .. import forest, refs, resolver_ref as rr, shapes, strategies
 from ..core import Violation
 from .c07 import ALPHABET, SEPS, uniquify
 
@@ -19,7 +19,7 @@ RULE = (
     "pattern, which crosses the 20-entry eviction. Pattern components come from {tree names, a name with one character replaced by '?', "
     "prefix+'*', '*'+suffix, '*', '?', '?*', '**', '..', '.', '', unknown literals, literals with regex metacharacters}. Exhaustive part: "
     "all shapes <= 4 (quick) / 5 (thorough) nodes x 2 naming schemes x every start x every relative and absolute pattern of <= 3 / <= 4 "
-    "components over a 9-symbol alphabet. Non-trivial query = it contains a wildcard or '**' and denotes at least one node, or a strict "
+    "components over a 10-symbol alphabet. Non-trivial query = it contains a wildcard or '**' and denotes at least one node, or a strict "
     "dead end below the first component; distinct_nontrivial counts cases with such a query."
 )
 ASSUMPTIONS = [
@@ -129,10 +129,24 @@ def check_query(case, nodes, labels, preorder_index, ic, start, pattern, unique,
 def check_case(case, acc):
     nodes = rr.build(case)
     labels = forest.Labels(nodes)
-    preorder_index = {id(n): i for i, n in enumerate(rr.preorder(nodes[0]))}
+    _once(case, acc, nodes, labels, clear=not case.get("keep_cache"))
+    for op in case.get("mutations", []):
+        # same queries on the same node objects after the tree changed (the pattern cache keeps its state)
+        refs.mutate_tree(nodes, op + [case["pathattr"]] if op[0] == "rename" else op)
+        _once(case, acc, nodes, labels, clear=False)
+        acc.tag("rechecked_after_mutation")
+
+
+def _once(case, acc, nodes, labels, clear):
+    preorder_index = {}
+    for node in nodes:
+        if node.parent is None:
+            base = len(preorder_index)
+            for i, n in enumerate(rr.preorder(node)):
+                preorder_index[id(n)] = base + i
     unique = {ic: siblings_unique(nodes, case["pathattr"], ic) for ic in (False, True)}
     before = forest.snapshot(nodes, labels)
-    if not case.get("keep_cache"):
+    if clear:
         Resolver._match_cache.clear()
     nontrivial = False
     nonempty = 0
@@ -213,10 +227,11 @@ def random_cases(draw):
         # re-use earlier queries after the eviction point (entries written around an eviction must not leak into later results)
         again = draw(st.lists(st.integers(0, len(queries) - 1), max_size=15))
         queries = queries + [queries[i] for i in again]
-    return {"shape": shape, "names": names, "sep": sep, "pathattr": draw(st.sampled_from(["name", "name", "id"])), "queries": queries, "keep_cache": draw(st.booleans())}
+    muts = draw(strategies.tree_mutations(max_ops=2, rename_values=st.sampled_from(texts)))
+    return {"shape": shape, "names": names, "sep": sep, "pathattr": draw(st.sampled_from(["name", "name", "id"])), "queries": queries, "keep_cache": draw(st.booleans()), "mutations": muts}
 
 
-ENUM_COMPS = ["a", "b", "a*", "?", "*", "**", "..", ".", "zz"]
+ENUM_COMPS = ["a", "b", "a*", "?", "*", "**", "..", ".", "", "zz"]
 # more than _MAXCACHE (20) distinct single components: cycling through them evicts the cache again and again
 CACHE_COMPS = ["a", "b", "a*", "*a", "?", "??", "a?", "?a", "*", "ab", "a.b", "A", "B", "[a]", "a+", "zz", "*b", "b*", "?b", "b?", "a.?", "*.*", "???", "a*b", "A*", "?B"]
 SCHEMES = [["a", "b", "ab"], ["a", "A", "a.b"]]
@@ -256,10 +271,17 @@ def plan(tier, seed):
     max_nodes, maxlen = (4, 3) if tier == "quick" else (5, 4)
     tasks = [{"engine": "enum", "max_nodes": max_nodes, "maxlen": maxlen, "index": i, "count": nshards * 2} for i in range(nshards * 2)]
     tasks += [{"engine": "hyp", "examples": examples, "seed": seed * 1000 + i} for i in range(nshards)]
+    if tier == "thorough":
+        # coverage-guided supplement: 16 libFuzzer campaigns on the same strategy + oracle (skipped if atheris is unavailable)
+        tasks += [{"engine": "fuzz", "runs": 4000, "seed": seed * 100 + i + 1} for i in range(nshards)]
     return tasks
 
 
 def run_task(task, acc):
+    if task["engine"] == "fuzz":
+        from ..core import run_fuzz_task
+
+        return run_fuzz_task(PROP_ID, task, acc)
     if task["engine"] == "enum":
         acc.run_enum(check_case, _enum_cases(task["max_nodes"], task["maxlen"], task["index"], task["count"]))
     else:
